@@ -8,6 +8,7 @@
 -/
 import CxxModel.Prog
 import CxxModel.Gen.ParserTables
+import CxxModel.Gen.Uses
 namespace Cxx.P
 
 abbrev M := Prog
@@ -165,6 +166,9 @@ def consumeValueUntil (fuel : Nat) (rtoks : List CTok) (types : List String) : M
 
 /-- `toks[1:-1]` -/
 def inner (toks : List CTok) : List CTok := (toks.drop 1).dropLast
+
+/-- `toks[1:-1]` where the call site says so (`Gen.Uses`), else `toks` -/
+def sliceIf (b : Bool) (toks : List CTok) : List CTok := if b then inner toks else toks
 
 /-! ### attributes -/
 
